@@ -40,7 +40,7 @@ func genTy(rng *rand.Rand, depth int) actionlint.ExprType {
 
 func genObj(rng *rand.Rand, depth int, loose bool) *actionlint.ObjectType {
 	props := map[string]actionlint.ExprType{}
-	n := 1 + rng.Intn(3)
+	n := rng.Intn(4) // 0 = the empty strict / the empty open object
 	for i := 0; i < n; i++ {
 		props[tyKeys[rng.Intn(len(tyKeys))]] = genTy(rng, depth-1)
 	}
@@ -321,6 +321,77 @@ func runC06(c *ctx, r *Report) error {
 		}
 	}
 	r.Notes = append(r.Notes, fmt.Sprintf("accepted premises: %d of %d pairs (%.0f%%); loosened re-checks: %d", accepted, n, 100*float64(accepted)/float64(n), loosened))
-	_, err := b.flush(c, r)
-	return err
+	if _, err := b.flush(c, r); err != nil {
+		return err
+	}
+	// directed: every ordered pair of object / array types of the depth ≤ 1 universe as `matrix.l`, `matrix.r`, combined
+	// by || and && and then dereferenced; every single-step loosening of either side keeps an accepted expression accepted
+	{
+		u := typeUniverse()
+		if len(u) > 37 {
+			u = u[:37]
+		}
+		var bx batch
+		bx.judge = func(cs Case) (string, string) {
+			if semaCodes(cs.Model, "prop-undefined", "filter-prop-undefined", "deref-not-object", "filter-not-object", "index-bad-operand", "filter-elems-not-object", "filter-no-object-elem", "filter-bad-receiver", "bad-compare") == "" {
+				return "loosening-introduces-diagnostic", "an expression accepted under Γ is rejected under Γ' where one object is left open (knowing fewer properties); the proved model accepts it under Γ'"
+			}
+			return "", ""
+		}
+		exprs := []string{"(matrix.l || matrix.r).a", "(matrix.l || matrix.r).b", "(matrix.l || matrix.r).zz", "(matrix.l && matrix.r).a", "(matrix.l && matrix.r).zz",
+			"(matrix.l || matrix.r).a.b", "(matrix.l || matrix.r)[0]", "(matrix.l && matrix.r).*", "(matrix.l || matrix.r).*.a", "matrix.l == matrix.r", "(matrix.r || matrix.l).zz"}
+		directed := 0
+		for _, t1 := range u {
+			for _, t2 := range u {
+				mkEnv := func(a, b actionlint.ExprType) *semaEnv {
+					return &semaEnv{vars: map[string]actionlint.ExprType{"matrix": actionlint.NewStrictObjectType(map[string]actionlint.ExprType{"l": a, "r": b})}, availCtx: allContexts, availSpecial: allSpecial}
+				}
+				env := mkEnv(t1, t2)
+				for _, e := range exprs {
+					res := runSema(env, e+" }}", false)
+					r.Evaluations++
+					if res.syntaxErr || len(res.errCodes) > 0 {
+						continue
+					}
+					var envs []*semaEnv
+					for _, l := range loosenings(t1) {
+						envs = append(envs, mkEnv(l, t2))
+					}
+					for _, l := range loosenings(t2) {
+						envs = append(envs, mkEnv(t1, l))
+					}
+					nLiteral := len(envs)
+					// wider reading of "an object is left open": the open object also knows fewer properties (the outputs
+					// of actions/github-script vs. declared outputs). Only used to turn a broken tie into a failing input:
+					// reported where the implementation rejects and the proved model, on the same input, accepts.
+					if o, ok := t1.(*actionlint.ObjectType); ok && o.Mapped == nil && len(o.Props) > 0 {
+						envs = append(envs, mkEnv(actionlint.NewEmptyObjectType(), t2))
+					}
+					if o, ok := t2.(*actionlint.ObjectType); ok && o.Mapped == nil && len(o.Props) > 0 {
+						envs = append(envs, mkEnv(t1, actionlint.NewEmptyObjectType()))
+					}
+					for ei, env2 := range envs {
+						res2 := runSema(env2, e+" }}", false)
+						r.Evaluations++
+						directed++
+						if len(res2.errCodes) == 0 {
+							continue
+						}
+						cs := Case{Op: "sema loosen", Input: map[string]string{"env": env.encode(), "looser_env": env2.encode(), "expr": e}, Note: strings.Join(res2.errCodes, "|")}
+						if ei < nLiteral {
+							r.finding("loosening-introduces-diagnostic", "an expression accepted under Γ is rejected under a looser Γ'", cs)
+						} else {
+							bx.add("sema "+env2.encode()+" "+hx(e+" }}"), res2.canon, cs)
+						}
+					}
+				}
+			}
+		}
+		if _, err := bx.flush(c, r); err != nil {
+			return err
+		}
+		r.hist(fmt.Sprintf("directed-loosenings:%d", directed))
+		r.Rule += "; directed: all ordered pairs of the 37 types of depth ≤ 1 as matrix.l / matrix.r under 11 expressions that merge and then dereference them, re-checked under every single-step loosening of either side"
+	}
+	return tyOpsTie(c, r, nil)
 }
